@@ -130,8 +130,41 @@ def prove(thm_file, extra_vo=()):
     axioms, closed = parse_assumptions(log)
     err = None if ok else (first_error(log) or {"file": thm_file, "line": 0, "lemma": None, "message": log[-400:]})
     printed = len(re.findall(r"^Axioms:|Closed under the global context", log, re.M))
-    return {"ok": ok, "obligations": len(names), "discharged": len(names) if ok else 0,
+    discharged = len(names) if ok else len(discharged_before_error(thm_file, names, err))
+    return {"ok": ok, "obligations": len(names), "discharged": discharged,
             "theorems": names, "axioms": axioms, "assumption_reports": printed, "error": err, "log": log}
+
+
+def discharged_before_error(thm_file, names, err):
+    """When the build stops at an error: the theorems whose supporting lemmas all compiled, i.e. are defined
+    textually before the failing lemma (in the failing file) or in files whose .vo exists."""
+    defs_after = set()
+    decl = re.compile(r"^\s*(?:Lemma|Theorem|Corollary|Definition|Fixpoint|Example)\s+(\w+)", re.M)
+    for root, _, files in os.walk(COQ):
+        for fn in files:
+            if not fn.endswith(".v"):
+                continue
+            rel = os.path.relpath(os.path.join(root, fn), COQ)
+            txt = open(os.path.join(root, fn)).read()
+            if err and rel == err["file"]:
+                lines = txt.splitlines()
+                start = 0
+                for i in range(min(err["line"], len(lines)) - 1, -1, -1):
+                    if decl.match(lines[i]):
+                        start = i
+                        break
+                defs_after |= set(decl.findall("\n".join(lines[start:])))
+            elif not os.path.exists(os.path.join(root, fn[:-2] + ".vo")):
+                defs_after |= set(decl.findall(txt))
+    txt = open(os.path.join(COQ, thm_file)).read()
+    good = []
+    for nm in names:
+        m = re.search(r"Theorem\s+" + nm + r"\b(.*?)Qed\.", txt, re.S)
+        body = m.group(1) if m else ""
+        ids = set(re.findall(r"[A-Za-z_][\w']*", body))
+        if nm not in defs_after and not (ids & defs_after):
+            good.append(nm)
+    return good
 
 
 # ------------------------------------------------------------------ extraction driver
